@@ -859,6 +859,44 @@ func checkDebExtras(c *Ctx, r *Report, pa *provAnalysis) {
 			}
 		})
 	}
+	// the same pairing written as calls of one writer, one per directive:
+	// writeDirective("interest", triggers.Interest) ...
+	if len(rows) == 0 {
+		for _, fn := range sortedFuncs(c, reach) {
+			forEachInstr(fn, func(in ssa.Instruction) {
+				call, ok := in.(*ssa.Call)
+				if !ok || len(call.Call.Args) < 2 {
+					return
+				}
+				if _, isB := call.Call.Value.(*ssa.Builtin); isB {
+					return
+				}
+				if sc := call.Call.StaticCallee(); sc == nil || !c.isModuleFunc(sc) {
+					return
+				}
+				dir := ""
+				var names provSet
+				nConst := 0
+				for _, a := range call.Call.Args {
+					if k, isK := a.(*ssa.Const); isK && constOrEmpty(k) != "" {
+						dir = constOrEmpty(k)
+						nConst++
+						continue
+					}
+					p := pa.Of(a)
+					for _, at := range infoAtoms(p) {
+						if strings.Contains(at, "Deb.Triggers.") {
+							names = p
+						}
+					}
+				}
+				if nConst == 1 && names != nil {
+					rows[dir] = infoAtoms(names)
+					at = in
+				}
+			})
+		}
+	}
 	// each list alone: with exactly one trigger list configured the rendering
 	// function still produces output (an early "nothing configured" return
 	// that forgets a list drops that list's directives)
